@@ -192,7 +192,10 @@ func (a Atom) probes() []rune {
 	add(a.Hi - 1)
 	add(a.Lo + (a.Hi-a.Lo)/4)
 	add(a.Lo + 3*((a.Hi-a.Lo)/4))
-	for _, b := range []rune{0x7f, 0x80, 0xff, 0x100, 0x7ff, 0x800, 0xd7ff, 0xe000, 0xfffd, 0xffff, 0x10000, 0x10fffe} {
+	// UTF-8 width boundaries, and characters that code tends to single out (line ends, blanks,
+	// the first letters and digit, the byte order mark, Unicode spaces and separators)
+	for _, b := range []rune{0x7f, 0x80, 0xff, 0x100, 0x7ff, 0x800, 0xd7ff, 0xe000, 0xfffd, 0xffff, 0x10000, 0x10fffe,
+		0x09, 0x0a, 0x0d, 0x20, '0', 'A', 'a', '_', 0x85, 0xa0, 0x2028, 0x3000, 0xfeff} {
 		add(b)
 	}
 	return rs
@@ -309,7 +312,7 @@ func (g *LexGrammar) renderLex() string {
 }
 
 func quoteLit(l string) string {
-	if strings.ContainsAny(l, "\"\\") && !strings.Contains(l, "`") {
+	if strings.ContainsAny(l, "\"\\\n") && !strings.Contains(l, "`") {
 		return "`" + l + "`"
 	}
 	return `"` + l + `"`
